@@ -28,6 +28,12 @@ CLAIMS = {
  "C08": ("Theorems over every code tree (mutual structural induction, no bound): points_length (SIZE = number of points), extract_index_lt (the normalised index is always inside the tree), trav_eq_points / extract_eq_points (EXTRACT at i yields the i-th point in depth-first order), ins_trav (INSERT at 1 <= i < size then EXTRACT at i yields the inserted item), ins_err / ins_out_of_range, position_spec via pos_sound / pos_none (POSITION returns an index at which EXTRACT finds an equal item, the first such index, and -1 exactly when no point matches), code_size_counts_points; negation k02_insert_out_of_range_violates. Correspondence: 19 CODE instructions by NAME on tree-rich states with operands drawn as points of the top item; points-based statements and the INSERT->EXTRACT relation evaluated on the implementation's outcome.",
          "Item::insert and Item::contains are modelled in their repaired form (fix commits in /repo). K02 (out-of-range INSERT) is pinned by a unit test: KNOWN-FINDING. SUBST / CONTAINER / DISCREPANCY / CONS / NTH are tied by correspondence and by points-based statements in the driver; their algebraic theorems are not all proved yet.",
          "Lean 4 proof by mutual structural induction over code trees + executed correspondence on tree-rich states"),
+ "C03": ("Parser model (tokenizer over the 25 Unicode White_Space code points, classification cascade, rec_push with depth counter on Vec order, i32/f32 token grammars with exact correctly-rounded decimal->binary32). Theorems for every forest, nesting depth and starting stack: recPush_plug (zipper invariant of rec_push), parse_render / parse_forest (a balanced forest parses to exactly its trees: same nesting, same order, first token on top), rev_rev / revL_revL (Vec order <-> top-first is an involution), parse_render_roundtrip, parse_render_below (new items go below existing EXEC items), malformed_vector_dropped (neighbours undisturbed), unmatched_rparen_ignored, parse_frame (only EXEC changes); kernel-evaluated classification examples. Correspondence: 6000 (thorough 60000) texts through the real parser; EXEC compared with the model and with an independent recursive-descent tree.",
+         "No-crash of the parser is by the repaired code using str::get / guarded depth (fix commits); the model has no partial operation left. str::parse::<i32>/<f32> and split_whitespace are modelled (own implementations, exact), not verified; float tokens are compared by bits.",
+         "Lean 4 proof (zipper invariant, mutual structural induction) + executed parser correspondence with an independent tree oracle"),
+ "C11": ("Theorems: classify_tokens / classify_tokensL (the printed tokens of a tree classify to its token sequence when every leaf round-trips), parse_print_tokens (parsing the printed tokens of a forest yields the forest, any nesting and size; uses C03.parse_forest and the involution), parse_print (parse (print t) = [t] under the two character-level hypotheses PrintTokens and LeafRT); kernel-evaluated leaf round trips for boundary integers, booleans, names. Correspondence: 5000 (thorough 40000) trees incl. pushr's own random code: Item::to_string = model print, real re-parse = model re-parse, parse(print t) = t (exact class) and print(parse(print t)) = print t (float class) evaluated on the implementation.",
+         "PARTIAL: the character-level facts (white-space splitting of the printed string; decimal print/parse of single integers and floats, FloatPrintStable) are hypotheses of the Lean theorem, not Lean theorems; they are statements about Rust std formatting and are validated by correspondence on every generated tree.",
+         "Lean 4 proof at token level + executed print/parse round-trip correspondence"),
  "C16": ("Refinement proof: every public PushStack method (Layer 0: Vec, top at the end, size-(i+1) index arithmetic that can panic) never panics and commutes with abs=reverse to the plain-sequence operation (Layer 1), for all element types, stacks and arguments (24 theorems). Correspondence: random and exhaustive operation sequences on the real PushStack<Item>.",
          "swap(i,j) (raw Vec indices) is outside the property. Vec::remove/insert/split_off/index panics are modelled, not verified.",
          "Lean 4 refinement proof (Vec model -> plain sequence) + executed model/implementation correspondence"),
